@@ -19,6 +19,14 @@ def crash_result(e):
 
 
 def run_case(case):
+    res = _run_case(case)
+    if res.get('crash') and res['crash'][0] == 'SIGKILL':
+        # killed from outside (the OOM killer picks any large process): decide on a re-run alone
+        res = _run_case(case)
+    return res
+
+
+def _run_case(case):
     """case: {'text': bytes|str, 'mode': 'rt'|'read'|'ws', 'strict': bool, ...}
     rt:   read, dump, write o1, (new) read o1, write o2
     Returns dict with sev, dump, out1, out2 ... or {'crash': (cls, site)}."""
@@ -37,6 +45,7 @@ def run_case(case):
     with open(fin, 'wb') as f:
         f.write(text)
     res = {}
+    d.recycle_if_big()
     try:
         d.cmd('new strict' if case.get('strict') else 'new')
         a = d.cmd('read ' + fin)
